@@ -86,6 +86,10 @@ class Prop(common.PropertyCheck):
             if sp['datatype'] == 'I':
                 sp['ranges'] = [1 << w for w in sp['widths']]      # every stored bit is part of the event value
             yield {'k': 'fileeq', 'spec': sp, 'flip': rng.choice(['event', 'keyword', 'none']), 'pos': rng.randrange(0, 1000)}
+        for i in range(self.budget(6, 40)):
+            sp = fcsgen.gen_spec(rng, max_events=6, max_par=3)
+            sp['extra'] = list(sp.get('extra') or []) + [['Operator', 'somebody']]
+            yield {'k': 'fileeq', 'spec': sp, 'flip': 'kwcase', 'pos': i}
         # large values differing by one unit / one ulp (equality must be exact)
         for dt in ('I', 'F', 'D'):
             for be in ('1,2,3,4', '4,3,2,1'):
@@ -153,6 +157,18 @@ class Prop(common.PropertyCheck):
                 res['second_dup_equal'] = bool(fp2['state'] == base['state'] and fp2['array'] == base['array'] and fpm.sample_fp(d2)['state'] == base['state'])
             except Exception as ex:
                 res['second_dup_equal'] = 'err:' + type(ex).__name__ + ':' + str(ex)[:60]
+            # a duplicate that has not been looked at yet does not follow later edits of the original's keywords
+            try:
+                d3 = self.build_state(case)
+                e3 = duplicate(d3, case['how'])
+                d3.text['VERIF3'] = 'later'; d3.analysis['VERIF3'] = 'later'
+                first = list(d3.text)[0] if len(d3.text) else None
+                if first is not None:
+                    d3.text[first] = 'overwritten later'
+                res['untouched_dup_independent'] = bool('VERIF3' not in e3.text and 'VERIF3' not in e3.analysis and
+                                                        (first is None or e3.text.get(first) != 'overwritten later'))
+            except Exception as ex:
+                res['untouched_dup_independent'] = 'err:' + type(ex).__name__ + ':' + str(ex)[:60]
             return res
         except Exception as ex:
             return {'err': type(ex).__name__ + ':' + str(ex)[:100]}
@@ -184,6 +200,13 @@ class Prop(common.PropertyCheck):
                 j = txt.find(b'P1')          # the name of parameter 1
                 if j > 0:
                     d2[tb + j] = ord('Q')
+                    flipped = True
+            elif case['flip'] == 'kwcase':
+                # the same keyword name in another letter case is another keyword
+                tb, te = layout['segs']['T']
+                j = bytes(d2[tb:te + 1]).find(b'Operator')
+                if j > 0:
+                    d2[tb + j:tb + j + 8] = b'OPERATOR' if case['pos'] % 2 else b'operator'
                     flipped = True
             if flipped:
                 with open(path, 'wb') as f:
@@ -239,6 +262,8 @@ class Prop(common.PropertyCheck):
                 return '%s after %s: changing the metadata of the %s changed the %s' % (how, case['ops'], 'duplicate' if side == 'dup' else 'original', other)
             if how != 'view' and (ind[side]['shares'] or not ind[side]['array_same']):
                 return '%s after %s: event buffers are shared' % (how, case['ops'])
+        if impl.get('untouched_dup_independent') is not True and 'untouched_dup_independent' in impl:
+            return '%s after %s: keywords edited in the original after the duplicate was made show up in the duplicate (%s)' % (how, case['ops'], impl['untouched_dup_independent'])
         if impl.get('second_dup_equal') is not True and 'second_dup_equal' in impl:
             return '%s after %s: a second duplicate, taken after the keywords of a first duplicate were edited, differs from the original (%s)' % (
                 how, case['ops'], impl['second_dup_equal'])
